@@ -16,6 +16,7 @@ Variable waits : E -> list kp -> bool.
 Variable eff : bid -> list kp -> E -> E * option res.
 Variable is_cprh : bid -> bool.
 Variable cpr_lookup : E -> option bid.
+Variable feeds : bid -> list kp -> E -> list kp.
 Variable restart : E -> E.
 Variable pfeed : str -> PS -> PS * list kp.
 Variable pflush : PS -> PS * list kp.
@@ -23,16 +24,18 @@ Variable res_eof : res.
 
 Notation core := (core E bid res).
 Notation sys := (sys E bid res PS).
-Notation call := (call eff is_cprh).
+Notation call := (call eff is_cprh feeds).
 Notation scan := (@scan E bid res lookup_scan).
-Notation loop := (loop lookup lookup_scan waits eff is_cprh).
-Notation send := (send lookup lookup_scan waits eff is_cprh).
-Notation handle_cpr := (handle_cpr eff is_cprh cpr_lookup).
-Notation deliver := (deliver lookup lookup_scan waits eff is_cprh cpr_lookup).
-Notation process_q := (process_q lookup lookup_scan waits eff is_cprh cpr_lookup).
-Notation pk := (@pk E bid res PS lookup lookup_scan waits eff is_cprh cpr_lookup).
-Notation step := (@step E bid res PS lookup lookup_scan waits eff is_cprh cpr_lookup restart pfeed pflush res_eof).
-Notation run := (@run E bid res PS lookup lookup_scan waits eff is_cprh cpr_lookup restart pfeed pflush res_eof).
+Notation loop := (loop lookup lookup_scan waits eff is_cprh feeds).
+Notation send := (send lookup lookup_scan waits eff is_cprh feeds).
+Notation handle_cpr := (handle_cpr eff is_cprh cpr_lookup feeds).
+Notation deliver := (deliver lookup lookup_scan waits eff is_cprh cpr_lookup feeds).
+Notation drain := (drain lookup lookup_scan waits eff is_cprh cpr_lookup feeds).
+Notation deliver_d := (deliver_d lookup lookup_scan waits eff is_cprh cpr_lookup feeds).
+Notation process_q := (process_q lookup lookup_scan waits eff is_cprh cpr_lookup feeds).
+Notation pk := (@pk E bid res PS lookup lookup_scan waits eff is_cprh cpr_lookup feeds).
+Notation step := (@step E bid res PS lookup lookup_scan waits eff is_cprh cpr_lookup feeds restart pfeed pflush res_eof).
+Notation run := (@run E bid res PS lookup lookup_scan waits eff is_cprh cpr_lookup feeds restart pfeed pflush res_eof).
 
 Definition sil_ev (e : ev bid) : Prop :=
   match e with
@@ -42,26 +45,26 @@ Definition sil_ev (e : ev bid) : Prop :=
   | ELost _ ks _ => noc ks
   end.
 
-Definition Sc (c : core) : Prop := noc (kbuf c) /\ noc (pb c) /\ Forall sil_ev (rlog c).
+(* (keys fed by handlers and pushed-back keys wait in [pb]; whatever they are,
+   they go through [deliver], which hands reports to the report binding) *)
+Definition Sc (c : core) : Prop := noc (kbuf c) /\ Forall sil_ev (rlog c).
 
 Lemma noc_split i (l : list kp) : noc l -> noc (firstn i l) /\ noc (skipn i l).
 Proof. unfold noc. intros H. rewrite <- (firstn_skipn i l) in H. apply Forall_app in H. exact H. Qed.
 
 Lemma Sc_call b ks (c : core) : noc ks -> Sc c -> Sc (call b ks c).
 Proof.
-  intros N (A & B & C). unfold Sc, C17_Typeahead.call; cbn [kbuf pb rlog]. repeat split; auto.
+  intros N (A & C). unfold Sc, C17_Typeahead.call; cbn [kbuf rlog]. split; [exact A|].
   constructor; [left; exact N|exact C].
 Qed.
 
 Lemma Sc_set_kbuf l (c : core) : noc l -> Sc c -> Sc (set_kbuf l c).
-Proof. intros N (A & B & C). unfold Sc; cbn [kbuf pb rlog set_kbuf]. auto. Qed.
+Proof. intros N (A & C). unfold Sc; cbn [kbuf rlog set_kbuf]. auto. Qed.
 
 Lemma Sc_retry (k : core -> core) (c1 : core) : (forall c, Sc c -> Sc (k c)) -> Sc c1 -> Sc (retry k c1).
 Proof.
   intros HK H. unfold retry. destruct (late c1); [|apply HK; exact H].
-  destruct H as (A & B & C). unfold Sc; cbn [kbuf pb rlog push_back]. repeat split; auto.
-  - constructor.
-  - apply Forall_app; auto.
+  destruct H as (A & C). unfold Sc; cbn [kbuf rlog push_back]. split; [apply Forall_nil|exact C].
 Qed.
 
 Lemma Sc_loop fuel : forall fl (c : core), Sc c -> Sc (loop fuel fl c).
@@ -69,15 +72,15 @@ Proof.
   induction fuel as [|f IH]; intros fl c H; cbn [C17_Typeahead.loop].
   - destruct (kbuf c); [exact H|]. exact H.
   - destruct (kbuf c) as [|k0 tl0] eqn:KB; [exact H|].
-    pose proof H as (A & B & C). rewrite KB in A.
+    pose proof H as (A & C). rewrite KB in A.
     assert (X : forall b, Sc (set_kbuf [] (call b (k0 :: tl0) c))).
-    { intros b. apply Sc_set_kbuf; [constructor|]. apply Sc_call; assumption. }
+    { intros b. apply Sc_set_kbuf; [apply Forall_nil|]. apply Sc_call; assumption. }
     assert (Y : forall b i, Sc (retry (loop f false) (set_kbuf (skipn i (k0 :: tl0)) (call b (firstn i (k0 :: tl0)) c)))).
     { intros b i. destruct (noc_split i _ A) as [N1 N2]. apply Sc_retry; [intros; apply IH; assumption|].
       apply Sc_set_kbuf; [exact N2|]. apply Sc_call; assumption. }
     assert (Z : Sc (retry (loop f false) (set_kbuf tl0 (add_ev (@EDrop bid (late c) k0) c)))).
     { apply Sc_retry; [intros; apply IH; assumption|]. inversion A as [|? ? A1 A2]; subst.
-      unfold Sc; cbn [kbuf pb rlog set_kbuf add_ev]. split; [exact A2|split; [exact B|constructor; [exact A1|exact C]]]. }
+      unfold Sc; cbn [kbuf rlog set_kbuf add_ev]. split; [exact A2|apply Forall_cons; [exact A1|exact C]]. }
     destruct (cph c); [| |exact H].
     + destruct (negb fl && waits (est c) (k0 :: tl0)); [exact H|].
       destruct (lookup (est c) (k0 :: tl0)) as [b|]; [apply X|].
@@ -92,23 +95,40 @@ Proof.
   intros H. destruct it as [k|]; cbn [C17_Typeahead.deliver].
   - destruct (is_cpr k) eqn:CK.
     + unfold C17_Typeahead.handle_cpr. destruct (cpr_lookup (est c)) as [b|] eqn:L; [|exact H].
-      destruct H as (A & B & C). unfold Sc, C17_Typeahead.call; cbn [kbuf pb rlog]. repeat split; auto.
-      constructor; [|exact C]. right. exists k, (est c). auto.
-    + unfold C17_Typeahead.send. apply Sc_loop. destruct H as (A & B & C).
-      unfold Sc; cbn [kbuf pb rlog set_kbuf]. repeat split; auto.
-      apply Forall_app; split; [exact A|]. constructor; [exact CK|constructor].
+      destruct H as (A & C). unfold Sc, C17_Typeahead.call; cbn [kbuf rlog]. split; [exact A|].
+      apply Forall_cons; [|exact C]. right. exists k, (est c). auto.
+    + unfold C17_Typeahead.send. apply Sc_loop. destruct H as (A & C).
+      unfold Sc; cbn [kbuf rlog set_kbuf]. split; [|exact C].
+      apply Forall_app; split; [exact A|]. apply Forall_cons; [exact CK|apply Forall_nil].
   - unfold C17_Typeahead.send. apply Sc_loop. exact H.
 Qed.
 
-Lemma Sc_clear (c : core) : Sc c -> Sc (clear_pb c).
-Proof. intros (A & B & C). unfold Sc; cbn [kbuf pb rlog clear_pb]. repeat split; auto. constructor. Qed.
+Lemma Sc_same (c c' : core) : kbuf c' = kbuf c -> rlog c' = rlog c -> Sc c -> Sc c'.
+Proof. intros H1 H2. unfold Sc. rewrite H1, H2. auto. Qed.
+
+Lemma Sc_drain l : forall c : core, Sc c -> Sc (drain l c).
+Proof.
+  induction l as [|k l IH]; intros c H; cbn [C17_Typeahead.drain]; [exact H|].
+  pose proof (Sc_deliver (IKey k) c H) as H'.
+  destruct (cph (deliver (IKey k) c)); [|exact H'|exact H'].
+  destruct (pb (deliver (IKey k) c)); [apply IH; exact H'|exact H'].
+Qed.
+
+Lemma Sc_deliver_d it (c : core) : Sc c -> Sc (deliver_d it c).
+Proof.
+  intros H. unfold C17_Typeahead.deliver_d. pose proof (Sc_deliver it c H) as H'.
+  destruct (cph (deliver it c)); [|exact H'|exact H']. apply Sc_drain. exact H'.
+Qed.
+
+Lemma Sc_pop it (c : core) : Sc c -> Sc (pop it c).
+Proof. destruct it; intros H; exact H. Qed.
 
 Lemma Sc_process_q q : forall c : core, Sc c -> Sc (fst (process_q q c)).
 Proof.
   induction q as [|it q IH]; intros c H; cbn [C17_Typeahead.process_q]; [exact H|].
   destruct (cph c); [| |exact H].
-  - cbn [fst]. apply IH. apply Sc_clear. apply Sc_deliver. exact H.
-  - destruct (item_is_cpr it); [apply IH; apply Sc_deliver; exact H|cbn [fst]; apply IH; exact H].
+  - cbn [fst]. apply IH. apply (Sc_deliver_d it). apply Sc_pop. exact H.
+  - destruct (item_is_cpr it); cbn [fst]; apply IH; [|exact H]. apply (Sc_deliver it). apply Sc_pop. exact H.
 Qed.
 
 Lemma Sc_pk (s : sys) : Sc (co s) -> Sc (co (pk s)).
@@ -130,8 +150,8 @@ Proof.
             try (destruct (rcpr s && negb (Nat.eqb (wcpr (co s)) 0)); exact H); fail).
   (* LStart *)
   1, 2: destruct (at_ s); try exact H; apply Sc_pk; cbn [co];
-        destruct H as (A & B & C); unfold Sc; cbn [kbuf pb rlog];
-        (split; [apply Forall_nil|]); (split; [exact B|]); (apply Forall_cons; [exact I|]);
+        destruct H as (A & C); unfold Sc; cbn [kbuf rlog];
+        (split; [apply Forall_nil|]); (apply Forall_cons; [exact I|]);
         destruct (kbuf (co s)) eqn:KB;
         [destruct (queue s); [exact C|apply Forall_cons; [cbn; apply Forall_nil|exact C]]
         |apply Forall_cons; [cbn; exact A|exact C]].
@@ -148,10 +168,49 @@ Lemma cpr_silent_log ls e p r :
   let s := run ls (@init E bid res PS e p r) in
   Forall sil_ev (rlog (co s)) /\ noc (kbuf (co s)).
 Proof.
-  intros s. destruct (Sc_run ls (@init E bid res PS e p r)) as (A & B & C).
-  - unfold Sc, init, init_core; cbn. repeat split; constructor.
+  intros s. destruct (Sc_run ls (@init E bid res PS e p r)) as (A & C).
+  - unfold Sc, init, init_core; cbn. split; constructor.
   - auto.
 Qed.
+
+(* the type-ahead store never holds a report (empty_queue filters them), for every binding set *)
+Definition St (s : sys) : Prop := Forall (fun i => item_is_cpr i = false) (store s).
+
+Lemma St_pk (s : sys) : St s -> St (pk s).
+Proof. intros H. exact H. Qed.
+
+Lemma St_finish r (s : sys) : St s -> St (finish r s).
+Proof.
+  intros H. unfold St, C17_Typeahead.finish; cbn [store]. apply Forall_app; split; [exact H|].
+  apply Forall_forall. intros i Hi. apply filter_In in Hi. destruct Hi as [_ Hi].
+  destruct (item_is_cpr i); [discriminate|reflexivity].
+Qed.
+
+Lemma St_step (s : sys) l : St s -> St (step s l).
+Proof.
+  intros H. unfold C17_Typeahead.step.
+  destruct (cph (co s)) eqn:PH; destruct l; try exact H.
+  all: try (destruct (wclosed s); exact H).
+  all: try (destruct (at_ s); try exact H;
+            try (destruct (wcpr (co s)); try exact H);
+            try (unfold C17_Typeahead.do_read; cbv zeta; destruct (pipe s);
+                 [destruct (wclosed s); [destruct (cph (co (pk s)))|]; exact H|exact H]);
+            try (destruct (kbuf (co s)); exact H);
+            try (destruct (rcpr s && negb (Nat.eqb (wcpr (co s)) 0)); [exact H|apply St_finish; exact H]);
+            try (apply St_finish; exact H);
+            try exact H; try (apply Forall_nil); fail).
+  destruct (at_ s); try exact H. destruct (rcpr s && negb (Nat.eqb (wcpr (co s)) 0)); [exact H|apply St_finish; exact H].
+Qed.
+
+Lemma St_run ls : forall s : sys, St s -> St (run ls s).
+Proof.
+  induction ls as [|l ls IH]; intros s H; [exact H|]. cbn [C17_Typeahead.run fold_left].
+  apply IH. apply St_step. exact H.
+Qed.
+
+Lemma cpr_never_stored_all ls e p r :
+  Forall (fun i => item_is_cpr i = false) (store (run ls (@init E bid res PS e p r))).
+Proof. apply St_run. apply Forall_nil. Qed.
 
 End P.
 Arguments sil_ev {E bid} cpr_lookup e.
